@@ -16,7 +16,7 @@ RULE = ('case = (conditional instruction word, (cond, NZCV) pair, random valid s
         'path inside an IT block (last slot, and for a third of the cases any other slot), B T1/T3 with every cond; failing '
         'pairs for the no-op monitor, passing pairs for AL-equivalence; plus the exhaustive truth table (cond x NZCV) through '
         'the real condition_passed() for the ARM cond field, B T1, B T3 and EVERY legal ITSTATE value (cond:mask, all 15 '
-        'non-zero mask nibbles). non-trivial = the same word with a passing '
+        'non-zero mask nibbles). plus two-step sequences: an exception return executed outside an IT block lands inside a Thumb IT block (every ITSTATE value) and the first instruction there is judged (fail: only PC and ITSTATE advance; pass: executes without setting flags). non-trivial = the same word with a passing '
         'condition changes state beyond the PC; distinct = (set, path id or word>>4, abstract execute class, cond)')
 ASSUMPTIONS = ['a step that ends in the Undefined Instruction exception or NotImplementedError is not judged by the '
                'no-op monitor (IMPLEMENTATION DEFINED whether an UNDEFINED instruction that fails its condition traps)',
